@@ -108,6 +108,41 @@ def trainLoopP {Q} [LT Q] [DecidableLT Q] [Sub Q] (patience : Nat) (delta : Q) (
     (fuel : Nat) : Option (Nat × Option Nat) :=
   pLoop patience delta loss fuel (PState.init (some 0)) 0
 
+/-! ### One condition object re-used for a second `train` call.
+
+`train` never resets `best_*_loss` / `epochs_since_best`; it only executes
+`stop_condition.best_model = model` before its loop.  A `TrainLoss` / `ValLoss` object that has
+already been through an earlier call therefore enters the loop in a *stale* state. -/
+
+/-- The epoch loop of a `train` call that is handed a used condition object in state `stale`:
+`stop_condition.best_model = model` overwrites `best_model` with this call's initial model (id 0),
+the stale best loss and the stale counter stay. -/
+def trainLoopReused {Q} [LT Q] [DecidableLT Q] [Sub Q] (patience : Nat) (delta : Q) (loss : Nat → Q)
+    (fuel : Nat) (stale : PState Q) : Option (Nat × Option Nat) :=
+  pLoop patience delta loss fuel { stale with bestModel := some 0 } 0
+
+/-- The same loop WITHOUT the assignment `stop_condition.best_model = model` (not what `train`
+does; kept as the contrast that shows what the assignment is needed for). -/
+def pLoopKeep {Q} [LT Q] [DecidableLT Q] [Sub Q] (patience : Nat) (delta : Q) (loss : Nat → Q)
+    (fuel : Nat) (stale : PState Q) : Option (Nat × Option Nat) :=
+  pLoop patience delta loss fuel stale 0
+
+/-- Spec of the counter of a re-used object after this call's losses `h` (newest first), stale
+best `b?` and stale counter `c`: as long as no loss of this call has improved on the stale best
+(the last improvement of the seeded history `h ++ [b]` is the seed itself) the stale counter just
+keeps counting, afterwards it is the fresh counter of the seeded history. -/
+def staleSince {Q} [LT Q] [DecidableLT Q] [Sub Q] (delta : Q) (b? : Option Q) (c : Nat)
+    (h : List Q) : Nat :=
+  if argBest delta (h ++ b?.toList) ≤ b?.toList.length then c + h.length
+  else trailing delta (h ++ b?.toList)
+
+/-- Spec of the best model id of a re-used object after this call's losses `h` (newest first):
+the epoch of the last improvement of the seeded history, counted in epochs of THIS call (the seed
+occupies position 1 of the seeded history); `0` (this call's initial model, by truncated
+subtraction) when no loss of this call improved on the stale best. -/
+def staleModel {Q} [LT Q] [DecidableLT Q] [Sub Q] (delta : Q) (b? : Option Q) (h : List Q) : Nat :=
+  argBest delta (h ++ b?.toList) - b?.toList.length
+
 def eLoop (epochs : Nat) : Nat → Nat → Option (Nat × Option Nat)
   | 0, _ => none
   | fuel + 1, epoch =>
